@@ -191,7 +191,8 @@ def instances(formulas, opts=None):
         args = [e.arg(i) for i in range(2, e.num_args())]
         zero = z3.IntVal(0) if z3.is_int(e) else RV(0)
         out.append(z3.Implies(hi <= lo, e == zero))
-        if opts.get("unfold", True):
+        only = opts.get("unfold_only")      # optional: names of the Σ-functions whose applications are unfolded
+        if opts.get("unfold", True) and (only is None or sd.name in only):
             last = sd.fn(lo, z3.simplify(hi - 1), *args)
             out.append(z3.Implies(hi > lo, e == last + sd.body_at(z3.simplify(hi - 1), args)))
         if opts.get("unfold_first", False):
@@ -211,6 +212,10 @@ def instances(formulas, opts=None):
             b1, b2 = sd1.body_at(x, a1), sd2.body_at(x, a2)
             out.append(z3.Implies(z3.And(lo1 == lo2, hi1 == hi2,
                                          z3.Implies(z3.And(lo1 <= x, x < hi1), b1 == b2)), e1 == e2))
+            # pointwise lemmas supplied by a contract (each proved as its own obligation at an arbitrary index):
+            # instantiated at the extensionality witness
+            for pw_fn in (opts.get("pointwise") or []):
+                out.append(pw_fn(x))
     return out
 
 
